@@ -59,7 +59,9 @@ EXPRESSIONS (e : T means "e has inferred type T")
                                                                 (`py_of_option (loads s) ValueError`)
   sorted(l) on str, "sep".join(l)                               py_sorted_str (byte-wise order), py_str_join;  l.sort() as a statement on
                                                                 a never-aliased local list of str: re-binding to py_sorted_str l
-  h(e, ..) for a module-level function h of the same file that consists of one `return e'`: e' with the arguments substituted
+  h(e, ..), Cls.h(e, ..), self.h(e, ..) for a pure helper h (a module-level function of the same file, or a @staticmethod of the
+                                                                target's class) whose body is plain assignments of new locals and a final
+                                                                `return e'`: e' with locals and parameters replaced by what they stand for
   h(a, b) as a statement, for a module-level procedure h(a, b) -> None without `return`, called with exactly its parameter names:
                                                                 its body in place (raise sites 100 + ordinal)
   compress(l, s) chain(l1, l2) accumulate(l) pairwise(l)       py_compress, ++, py_accumulate, py_pairwise
@@ -74,7 +76,7 @@ EXPRESSIONS (e : T means "e has inferred type T")
                                 reads are passed on under the same names; a recursive function gets an explicit fuel argument
 STATEMENTS (a block is translated together with "what follows it", so a variable is only visible where Python binds it)
   x = e, x: T = e               let x := e in ...        (`x = f(..)` : bind (f ..) (fun x => ...))
-  (a, b) = e                    let '(a, b) := e in ...  for a pair e
+  (a, b) = e                    let '(a, b) := e in ...  for a pair e;  for a list e: bind (py_unpack2 e) .. (ValueError unless len(e) = 2)
   a, *rest = l                  bind (py_uncons l) (fun '(a, rest) => ...)      (ValueError on an empty l)
   *init, a = l                  bind (py_unsnoc l) (fun '(init, a) => ...)      (ValueError on an empty l)
   d[k] = v, d |= e              on a never-aliased local dict: re-binding of d to py_dict_set eqb k v d / py_dict_or eqb d e
@@ -136,6 +138,7 @@ TARGET MODES  "function": a def (possibly a method, found by qualified name); it
 from __future__ import annotations
 
 import ast
+import copy
 import hashlib
 import re
 from dataclasses import dataclass, field
@@ -211,6 +214,16 @@ def split_prod(t):
     return out + [cur.strip()] if out else [t]
 
 
+def atom_params(atoms):
+    """the parameters declared by an atom list: entries whose name is an identifier, once each (several source texts may denote the
+    same parameter; a name that is not an identifier is a Gallina expression over the parameters, e.g. A.dim() = (py_len shape))"""
+    out = []
+    for _, p, ty in atoms:
+        if re.fullmatch(r"[A-Za-z_][A-Za-z_0-9]*", p) and (p, ty) not in out:
+            out.append((p, ty))
+    return out
+
+
 def gtype(t): return re.sub(r"\bview\b", "py_view", re.sub(r"\bstring\b", "String.string", t.replace("dict (", "list (")))      # the Gallina spelling of a type
 def same(t1, t2): return t1 == t2 or (is_list(t1) and is_list(t2) and "list ?" in (t1, t2)) or (is_dict(t1) and is_dict(t2) and "dict ?" in (t1, t2))     # `list ?`: an empty display, element type open
 def elem(t): return t[5:].strip() if not t[5:].startswith("(") else t[5:]
@@ -218,16 +231,37 @@ def ident(n): return n + "_" if n in RESERVED else n
 def unp(n): return ast.unparse(n)
 
 
+class Subst(ast.NodeTransformer):
+    """replaces the loads of the names in `m` by (copies of) the expressions they stand for"""
+
+    def __init__(self, m):
+        self.m = m
+
+    def visit_Name(self, n):
+        return copy.deepcopy(self.m[n.id]) if isinstance(n.ctx, ast.Load) and n.id in self.m else n
+
+
+def substituted(node, m):
+    return ast.fix_missing_locations(Subst(m).visit(copy.deepcopy(node))) if m else node
+
+
+def is_reference(e):
+    """an expression that only NAMES an existing object: names, attributes, subscripts with name / constant keys (no calls)"""
+    return isinstance(e, (ast.Name, ast.Constant)) or (isinstance(e, ast.Attribute) and is_reference(e.value)) \
+        or (isinstance(e, ast.Subscript) and is_reference(e.value) and is_reference(e.slice))
+
+
 class Fn:
     """Translation of one function body."""
 
     def __init__(self, tr: "Translator", tgt: Target, name: str, recursive: bool):
         self.tr, self.tgt, self.name, self.recursive = tr, tgt, name, recursive
-        self.sites = {}           # id(raise/assert statement) -> its ordinal in source order (set by Translator)
+        self.sites = {}           # (line, column) of a raise/assert statement -> its ordinal in source order (set by Translator)
         self.tmp = 0
         self.ret_type = None
         self.mutated: set = set()
         self.state = [n for _, n, _ in tgt.state]
+        self.fparams: set = set()  # decision mode: the parameters of the function (never re-bound by an opaque binding)
         self.loop_ends: list = []  # innermost last: what `continue` does
         self.ret_unit = False      # the function is annotated `-> None`
         self.inline: dict = {}     # exprs mode: name -> the expression bound to it just before (see Translator.exprs)
@@ -645,23 +679,21 @@ class Fn:
         args, kws = n.args, n.keywords
         if f in self.tgt.calls or f in self.tr.funcs:                                 # translated function (nested, itself, or earlier target)
             return self.call_known(n, f, env)
-        if isinstance(n.func, ast.Name) and f not in env and f in self.tr.helpers:    # a module-level function of the same file that is one
-            h = self.tr.helpers[f]                                                     # `return e`: the call is replaced by e
-            vals = self.match_args(n, [a.arg for a in h.args.args], args, kws)
-            binds, e2 = [], {k: v for k, v in env.items() if k.startswith("@")}       # only its own parameters are visible to e
-            ren = {}
-            for a, v in zip(h.args.args, vals):
-                b, c, t = self.expr(v, env, self.tr.ann(a.annotation, self.tgt, None))
-                if not same(t, self.tr.ann(a.annotation, self.tgt, None)):
-                    raise Untranslatable(n, f"argument `{a.arg}` of {f} has type {t}")
-                binds += b
-                e2[a.arg], ren[a.arg] = t, c
+        if f not in env and f in self.tr.helpers:
+            # a pure helper of the same file / class - plain assignments of new locals, then `return e` - called as h(..), Cls.h(..) or
+            # self.h(..): the call is replaced by e, with the helper's locals and parameters replaced by what they stand for
+            h = self.tr.helpers[f]
+            m = dict(zip([a.arg for a in h.args.args], self.match_args(n, [a.arg for a in h.args.args], args, kws)))
+            free = {x.id for x in ast.walk(h) if isinstance(x, ast.Name)} - set(m) - {t.targets[0].id for t in h.body[:-1]}
+            if free & {k for k in env if not k.startswith("@")}:
+                raise Untranslatable(n, f"globals {sorted(free & set(env))} of {f} are shadowed by locals at the call")
+            for st in h.body[:-1]:
+                m[st.targets[0].id] = substituted(st.value, m)
             self.tr.helpers = {k: v for k, v in self.tr.helpers.items() if k != f}    # no recursion through helpers
             try:
-                b, c, t = self.expr(h.body[-1].value, {**e2, "@ren": ren}, want)
+                return self.expr(ast.copy_location(substituted(h.body[-1].value, m), n), env, want)
             finally:
                 self.tr.helpers[f] = h
-            return binds + b, c, t
         if f == "torch.split" and len(args) == 2 and [k.arg for k in kws] == ["dim"]:   # torch.split(t, b, dim=d) on a strided view
             b, cs, ts = self.seq_of([*args, kws[0].value], env)
             if ts != ["view", "Z", "Z"]:
@@ -908,15 +940,33 @@ class Fn:
         nxt = lambda e: self.block(rest, e, k)                                    # noqa: E731
         if any(unp(s).startswith(pre) for pre in self.tgt.drop):                  # a statement left out of the slice (checked in prefix())
             return nxt(env)
+        if self.tgt.actions:
+            s = substituted(s, env.get("@subst"))          # decision mode: local names of existing objects are replaced by what they name
         if self.tgt.actions and isinstance(s, ast.Assign) and isinstance(s.value, ast.IfExp):
             # decision mode: x = a if c else b  is  if c: x = a  else: x = b  (so that the two assignments can be named as actions)
             mk = lambda v: ast.copy_location(ast.Assign(targets=s.targets, value=v), s)         # noqa: E731
             s = ast.fix_missing_locations(ast.copy_location(ast.If(test=s.value.test, body=[mk(s.value.body)], orelse=[mk(s.value.orelse)]), s))
-        callee = unp(s.value.func) if isinstance(s, (ast.Assign, ast.Expr, ast.Return)) and isinstance(s.value, ast.Call) else None
-        tag = next((t for pre, t in self.tgt.actions.items() if unp(s).startswith(pre) or callee == pre), None) if self.tgt.actions else None
+        call = s.value if isinstance(s, (ast.Assign, ast.Expr, ast.Return)) else None
+        while isinstance(call, (ast.Subscript, ast.Attribute)):                   # f(..)[1], f(..).Q: still the call of f
+            call = call.value
+        callee = unp(call.func) if isinstance(call, ast.Call) else None
+        tag = next((t for pre, t in self.tgt.actions.items()
+                    if (re.fullmatch(pre[3:], unp(s)) if pre.startswith("re:") else unp(s).startswith(pre) or callee == pre)), None) if self.tgt.actions else None
         if tag is None and self.tgt.actions and isinstance(s, ast.Return) and s.value is not None:
             # `return E` where `x = E` is a named action: the same computation, returned directly
             tag = next((t for pre, t in self.tgt.actions.items() if re.match(r"^[A-Za-z_][A-Za-z_0-9]* = ", pre) and pre.split(" = ", 1)[1] == unp(s.value)), None)
+        if self.tgt.actions and tag is None and isinstance(s, ast.Assign) and len(s.targets) == 1 and isinstance(s.targets[0], ast.Name) \
+                and s.targets[0].id not in env and s.targets[0].id not in self.fparams \
+                and not any(re.search(rf"\b{s.targets[0].id}\b", a[0]) for a in self.tgt.atoms):
+            x = s.targets[0].id
+            if is_reference(s.value):                      # x = state_lists[KEY]: x is another name of that object
+                return nxt({**env, "@subst": {**env.get("@subst", {}), x: s.value}})
+            try:
+                self.expr(s.value, env)
+            except Untranslatable:
+                # x = <tensor expression>: a new local that no test may use (it is not in the environment); statements that
+                # use it must be actions.  Allowed for names that are neither parameters nor part of an atom.
+                return nxt({**env, "@subst": {k: v for k, v in env.get("@subst", {}).items() if k != x}})
         if tag is not None and isinstance(s, (ast.Assign, ast.Expr, ast.Return)):  # decision mode: a statement with (tensor) side effects
             code = f"let acts_ := (acts_ ++ [({tag})]) in\n"                       # is recorded by its tag; what it binds is not a value here
             return code + ("Ret (acts_, true)" if isinstance(s, ast.Return) else nxt(env))
@@ -974,6 +1024,13 @@ class Fn:
                 if v in self.state or v in env.get("@ren", {}) or v in env.get("@alias", {}):
                     raise Untranslatable(s, f"`{v}` cannot be re-bound here")
             return self.wrap(b, f"bind (py_unsnoc {c}) (fun '({ident(r)}, {ident(a)}) =>\n{nxt({**env, a: elem(t), r: t})})")
+        if isinstance(tg, ast.Tuple) and len(tg.elts) == 2 and all(isinstance(e, ast.Name) for e in tg.elts) and is_list(self.expr(s.value, env)[2]):
+            b, c, t = self.expr(s.value, env)                                             # a, b = l : ValueError unless len(l) == 2
+            a0, a1 = tg.elts[0].id, tg.elts[1].id
+            for v in (a0, a1):
+                if v in self.state or v in env.get("@ren", {}) or v in env.get("@alias", {}):
+                    raise Untranslatable(s, f"`{v}` cannot be re-bound here")
+            return self.wrap(b, f"bind (py_unpack2 {c}) (fun '({ident(a0)}, {ident(a1)}) =>\n{nxt({**env, a0: elem(t), a1: elem(t)})})")
         if isinstance(tg, ast.Tuple) and all(isinstance(e, ast.Name) for e in tg.elts):  # (a, b) = <pair>
             b, c, t = self.expr(s.value, env)
             if not (t.startswith("(") and t.count("*") == len(tg.elts) - 1 == 1):
@@ -1050,6 +1107,9 @@ class Fn:
     def s_AugAssign(self, s, env, nxt):
         """x[i] += e  is  x[i] = x[i] + e  with x and i evaluated once (i is required to be pure)"""
         tg = s.target
+        if isinstance(tg, ast.Name) and isinstance(s.op, ast.Add) and is_list(env.get(tg.id, "")):         # l += e: l.extend(e) in place
+            call = ast.Call(func=ast.Attribute(value=ast.Name(id=tg.id, ctx=ast.Load()), attr="extend", ctx=ast.Load()), args=[s.value], keywords=[])
+            return self.s_Expr(ast.fix_missing_locations(ast.copy_location(ast.Expr(value=call), s)), env, nxt)
         if isinstance(tg, ast.Name) and isinstance(s.op, ast.BitOr) and is_dict(env.get(tg.id, "")):      # d |= e: d.update(e) in place
             self.check_mutable(tg.id, s)
             b, c, t = self.expr(s.value, env, env[tg.id])
@@ -1089,6 +1149,8 @@ class Fn:
             # h(a, b) as a statement, h a module-level procedure (`-> None`, no `return`) of the same file called with exactly its own
             # parameter names: its body is translated in place (its raise sites are numbered 100 + ordinal)
             h = self.tr.procs[v.func.id]
+            if self.no_effect_deep(h.body) and all(isinstance(a, (ast.Name, ast.Constant)) for a in [*v.args, *(k.value for k in v.keywords)]):
+                return nxt(env)                            # a procedure that only logs, called with names / constants: no effect
             if v.keywords or [unp(a) for a in v.args] != [a.arg for a in h.args.args]:
                 raise Untranslatable(s, f"procedure {v.func.id} is not called with its own parameter names")
             for k, site in Translator.sites_of(h).items():
@@ -1109,6 +1171,10 @@ class Fn:
             if unp(v.func) == "heapq.heapreplace":         # the popped element is not used: statement form only
                 return self.wrap(b, f"bind (pq_replace {ident(h)} {c}) (fun {ident(h)} =>\n{nxt(env)})")
             return self.wrap(b, f"let {ident(h)} := pq_push {ident(h)} {c} in\n{nxt(env)}")
+        if isinstance(v, ast.Call) and isinstance(v.func, ast.Attribute) and v.func.attr == "update" and isinstance(v.func.value, ast.Name) \
+                and len(v.args) == 1 and not v.keywords and is_dict(env.get(v.func.value.id, "")):        # d.update(e) is d |= e
+            aug = ast.AugAssign(target=ast.Name(id=v.func.value.id, ctx=ast.Store()), op=ast.BitOr(), value=v.args[0])
+            return self.s_AugAssign(ast.fix_missing_locations(ast.copy_location(aug, s)), env, nxt)
         if isinstance(v, ast.Call) and isinstance(v.func, ast.Attribute) and v.func.attr == "sort" and isinstance(v.func.value, ast.Name) \
                 and not v.args and not v.keywords and env.get(v.func.value.id) == "list string":      # l.sort() in place, on strings
             x = v.func.value.id
@@ -1169,7 +1235,7 @@ class Fn:
         return self.wrap(b, self.ret(c))
 
     def site(self, stmt):
-        return self.sites[id(stmt)] + self.tgt.site_base
+        return self.sites[(stmt.lineno, stmt.col_offset)] + self.tgt.site_base
 
     def s_Raise(self, s, env, nxt):
         cls = s.exc.func.id if isinstance(s.exc, ast.Call) and isinstance(s.exc.func, ast.Name) else s.exc.id if isinstance(s.exc, ast.Name) else None
@@ -1188,6 +1254,15 @@ class Fn:
         t = s.test
         neg = isinstance(t, ast.UnaryOp) and isinstance(t.op, ast.Not)          # `if not isinstance(..)`: the same match, branches swapped
         ti = t.operand if neg else t
+        if isinstance(ti, ast.Call) and unp(ti.func) == "isinstance" and len(ti.args) == 2 and isinstance(ti.args[0], ast.Name) \
+                and unp(ti.args[1]) == "dict" and env.get(ti.args[0].id) in DICT_UNIONS:      # if isinstance(x, dict): a match on the tree x
+            x, ren = ti.args[0].id, env.get("@ren", {})
+            (dc, dt), (oc, ot) = DICT_UNIONS[env[x]]
+            gx, union, branches = self.gname(x, env), env[x], []
+            for ctor, suffix, ty, stmts in ((dc, "_dict", dt, s.orelse if neg else s.body), (oc, "_leaf", ot, s.body if neg else s.orelse)):
+                e1 = {**env, x: ty, "@ren": {**ren, x: gx + suffix}}
+                branches.append(f"| {ctor} {gx + suffix} =>\n{self.block(stmts, e1, lambda e, ty=ty, suffix=suffix: nxt({**e, x: ty, '@ren': {**ren, x: gx + suffix}}))}")
+            return f"match {gx} with\n" + "\n".join(branches) + "\nend"
         if isinstance(ti, ast.Call) and unp(ti.func) == "isinstance" and len(ti.args) == 2 and isinstance(ti.args[0], ast.Name) \
                 and unp(ti.args[1]) == "Sequence" and env.get(ti.args[0].id) in UNIONS:
             x, ren, union = ti.args[0].id, env.get("@ren", {}), env[ti.args[0].id]
@@ -1223,6 +1298,10 @@ class Fn:
         if pre:
             code = self.wrap(pre[0], f"let {ident(pre[1])} := {pre[2]} in\n{code}")
         return code
+
+    def no_effect_deep(self, stmts):
+        """only docstrings, pass, ignored (logging) calls, and `if`s over such statements"""
+        return all(self.no_effect([x]) or (isinstance(x, ast.If) and self.no_effect_deep(x.body) and self.no_effect_deep(x.orelse)) for x in stmts)
 
     def no_effect(self, stmts):
         return all(isinstance(x, ast.Pass) or (isinstance(x, ast.Expr) and ((isinstance(x.value, ast.Constant) and isinstance(x.value.value, str))
@@ -1295,7 +1374,7 @@ class Translator:
         self.repo = Path(repo)
         self.funcs: dict = {}          # python name -> {"coq", "params", "closure", "recursive", "ret", "owner"}: nested / recursive functions of the current target
         self.procs: dict = {}          # module-level procedures (`-> None`, no return) of the current file (inlined at statement-level calls)
-        self.helpers: dict = {}        # module-level functions of the current file that consist of one `return e` (inlined at calls)
+        self.helpers: dict = {}        # pure helpers of the current file / class (inlined at calls): "h", "Cls.h", "self.h" -> def
         self.by_qual: dict = {}        # "Class.method" -> coq name of its translation (mode "alias")
         self.exported: dict = {}       # coq name -> the same for every top-level function translated so far (Target.calls)
         self.out: list[str] = []       # Gallina definitions in dependency order
@@ -1323,11 +1402,23 @@ class Translator:
                     and not any(isinstance(x, (ast.Return, ast.Yield, ast.Global, ast.Nonlocal)) for x in ast.walk(fd)) \
                     and not (fd.args.vararg or fd.args.kwarg or fd.args.kwonlyargs or fd.args.defaults):
                 self.procs[fd.name] = fd
+        def pure_helper(fd):
+            st = [x for x in fd.body if not (isinstance(x, ast.Expr) and isinstance(x.value, ast.Constant))]
+            ok = st and isinstance(st[-1], ast.Return) and st[-1].value is not None \
+                and all(isinstance(x, ast.Assign) and len(x.targets) == 1 and isinstance(x.targets[0], ast.Name) for x in st[:-1]) \
+                and len({x.targets[0].id for x in st[:-1]}) == len(st) - 1 \
+                and not any(isinstance(y, (ast.NamedExpr, ast.Yield, ast.Await)) for x in st for y in ast.walk(x)) \
+                and all(unp(d) == "staticmethod" for d in fd.decorator_list) \
+                and not (fd.args.vararg or fd.args.kwarg or fd.args.kwonlyargs or fd.args.defaults)
+            return ast.FunctionDef(name=fd.name, args=fd.args, body=st, decorator_list=[]) if ok else None
+
         for fd in body:
-            st = [x for x in fd.body if not (isinstance(x, ast.Expr) and isinstance(x.value, ast.Constant))] if isinstance(fd, ast.FunctionDef) else []
-            if len(st) == 1 and isinstance(st[0], ast.Return) and st[0].value is not None and not fd.decorator_list \
-                    and not (fd.args.vararg or fd.args.kwarg or fd.args.kwonlyargs or fd.args.defaults):
-                self.helpers[fd.name] = ast.FunctionDef(name=fd.name, args=fd.args, body=st, decorator_list=[])
+            if isinstance(fd, ast.FunctionDef) and pure_helper(fd):
+                self.helpers[fd.name] = pure_helper(fd)
+        cls = next((n for n in body if isinstance(n, ast.ClassDef) and n.name == tgt.qualname.split(".")[0]), None) if "." in tgt.qualname else None
+        for fd in (cls.body if cls else []):              # static helpers of the target's own class: Cls.h(..) / self.h(..)
+            if isinstance(fd, ast.FunctionDef) and fd.decorator_list and pure_helper(fd):
+                self.helpers[f"{cls.name}.{fd.name}"] = self.helpers[f"self.{fd.name}"] = pure_helper(fd)
         node = None
         for part in tgt.qualname.split("."):
             node = next((n for n in body if isinstance(n, (ast.ClassDef, ast.FunctionDef)) and n.name == part), None)
@@ -1383,7 +1474,7 @@ class Translator:
     @staticmethod
     def sites_of(fdef):
         rs = sorted((n for n in ast.walk(fdef) if isinstance(n, (ast.Raise, ast.Assert))), key=lambda n: (n.lineno, n.col_offset))
-        return {id(n): k for k, n in enumerate(rs)}
+        return {(n.lineno, n.col_offset): k for k, n in enumerate(rs)}
 
     @staticmethod
     def free_names(fdef):
@@ -1404,8 +1495,8 @@ class Translator:
         for n in ast.walk(fdef):
             if isinstance(n, ast.Name) and isinstance(n.ctx, ast.Store):
                 p = parents.get(n)
-                if isinstance(p, ast.AugAssign) and isinstance(p.op, ast.BitOr):
-                    continue                               # d |= e is an in-place update, not a binding
+                if isinstance(p, ast.AugAssign) and isinstance(p.op, (ast.BitOr, ast.Add)):
+                    continue                               # d |= e / l += e is an in-place update, not a binding
                 stores[n.id] = stores.get(n.id, 0) + 1
                 fresh = isinstance(p, (ast.Assign, ast.AnnAssign)) and p.value is not None and (isinstance(p.value, (ast.List, ast.ListComp, ast.Dict)) or (isinstance(p.value, ast.Call) and unp(p.value.func) == "list")
                                                        or (isinstance(p.value, ast.BinOp) and isinstance(p.value.op, ast.Mult) and isinstance(p.value.left, ast.List)))
@@ -1417,7 +1508,7 @@ class Translator:
                 p = parents.get(n)
                 safe = (isinstance(p, ast.Subscript) and p.value is n) or (isinstance(p, ast.BinOp) and isinstance(p.op, ast.Add)) \
                     or (isinstance(p, ast.Call) and unp(p.func) in ("len", "tuple", "list", "sum", "prod") and n in p.args) \
-                    or (isinstance(p, ast.Attribute) and p.attr in ("append", "extend", "sort") and p.value is n) or isinstance(p, ast.Return) \
+                    or (isinstance(p, ast.Attribute) and p.attr in ("append", "extend", "sort", "update") and p.value is n) or isinstance(p, ast.Return) \
                     or (isinstance(p, ast.Call) and isinstance(p.func, ast.Attribute) and p.func.attr == "join" and n in p.args) \
                     or (isinstance(p, ast.Call) and unp(p.func) in HEAPQ and p.args and p.args[0] is n) \
                     or isinstance(p, ast.Starred) \
@@ -1468,7 +1559,7 @@ class Translator:
         env.update(dict(params))
         extra = []                                   # attributes of self: read-only atoms and updated state lists become parameters
         if enclosing is None:
-            extra = [(pn, ty) for _, pn, ty in [*tgt.atoms, *tgt.state]]
+            extra = atom_params([*tgt.atoms, *tgt.state])
             env.update({pn: ty for _, pn, ty in tgt.state})
         if recursive or enclosing is not None:       # visible to its own body and to the rest of the enclosing function
             if ret is None:
@@ -1487,7 +1578,7 @@ class Translator:
         self.emit(coq, recursive, [(v, env[v]) for v in closure] + params + extra, rt, body)
         if enclosing is None and not recursive and not tgt.state:
             self.by_qual[tgt.qualname] = coq
-            self.exported[coq] = {"coq": coq, "params": params, "atoms": [(pn, ty) for _, pn, ty in tgt.atoms], "closure": [], "recursive": False, "ret": rt}
+            self.exported[coq] = {"coq": coq, "params": params, "atoms": atom_params(tgt.atoms), "closure": [], "recursive": False, "ret": rt}
 
     def exprs(self, fdef, tgt):
         for name in tgt.names:
@@ -1504,7 +1595,7 @@ class Translator:
                 if isinstance(st, ast.Assign) and len(st.targets) == 1 and isinstance(st.targets[0], ast.Name) and stores.count(st.targets[0].id) == 1:
                     fn.inline[st.targets[0].id] = st.value
             b, c, t = fn.expr(hits[0].value, {})
-            self.emit(tgt.prefix + name, False, [(p, ty) for _, p, ty in tgt.atoms], t, fn.wrap(b, f"Ret {c}"))
+            self.emit(tgt.prefix + name, False, atom_params(tgt.atoms), t, fn.wrap(b, f"Ret {c}"))
 
     def decision(self, fdef, tgt):
         """mode "decision": ONE statement of the function, the unique one whose text starts with Target.stop_before (an `if` that
@@ -1520,8 +1611,17 @@ class Translator:
         fn = Fn(self, tgt, fdef.name, False)
         fn.sites = self.sites_of(fdef)
         fn.decision = True
-        body = fn.block(hits, {"acts_": "list Z"}, lambda e: "Ret (acts_, false)")
-        self.emit(tgt.prefix + (tgt.coq_name or fdef.name), False, [(p, ty) for _, p, ty in tgt.atoms], "list Z * bool", "let acts_ := [] in\n" + body)
+        fn.fparams = {a.arg for a in fdef.args.args}
+        env0 = {"acts_": "list Z"}
+        if tgt.stop_before is not None:
+            # locals that name existing objects, bound exactly once, earlier in the same statement list (as in "exprs" mode)
+            block = next(b for nd in ast.walk(fdef) for b in (getattr(nd, "body", None), getattr(nd, "orelse", None)) if isinstance(b, list) and hits[0] in b)
+            stores = [x.id for x in ast.walk(fdef) if isinstance(x, ast.Name) and isinstance(x.ctx, ast.Store)]
+            env0["@subst"] = {st.targets[0].id: st.value for st in block[:block.index(hits[0])]
+                              if isinstance(st, ast.Assign) and len(st.targets) == 1 and isinstance(st.targets[0], ast.Name)
+                              and stores.count(st.targets[0].id) == 1 and is_reference(st.value)}
+        body = fn.block(hits, env0, lambda e: "Ret (acts_, false)")
+        self.emit(tgt.prefix + (tgt.coq_name or fdef.name), False, atom_params(tgt.atoms), "list Z * bool", "let acts_ := [] in\n" + body)
 
     def prefix(self, fdef, tgt):
         idx = next((i for i, s in enumerate(fdef.body) if unp(s).startswith(tgt.stop_before)), None)
@@ -1549,7 +1649,7 @@ class Translator:
             fn.ret_type = "(" + " * ".join(e[v] for v in tgt.returns) + ")"
             return "Ret (" + ", ".join(ident(v) for v in tgt.returns) + ")"
         body = fn.block(fdef.body[:idx], dict(params), done)
-        self.emit(tgt.prefix + (tgt.coq_name or fdef.name), False, params + [(p, ty) for _, p, ty in tgt.atoms], fn.ret_type, body)
+        self.emit(tgt.prefix + (tgt.coq_name or fdef.name), False, params + atom_params(tgt.atoms), fn.ret_type, body)
 
     def text(self, header: str = "", preamble: str = "", footer: str = "") -> str:
         return ("(* GENERATED by tools/py2coq.py from the Python source - not committed, regenerated at every run. *)\n"
